@@ -10,6 +10,7 @@ A controller thread releases gates in the order the model dictates, validating b
 in fact reached its gate (model/implementation divergence = harness error), waiting for future.done() and for the caller's progress tick
 between steps - no sleeps.  Third mode: a caller-supplied executor whose completions are driven directly; it must be left open.
 Faults: an unreadable file (missing path / corrupt gzip) at every position x every completion order - the call must raise.
+Call histories: every sequence of valid and failing calls (incl. files that fail only after many records were parsed) in one process, per sharing mode.
 """
 import gzip
 import itertools
@@ -332,6 +333,9 @@ def plan(tier, seed):
 			for fault in [None] + list(range(n)):
 				tasks.append(('t_orders', dict(n=n, mode=mode, w=w, fault=fault, tier=tier, seed=seed)))
 	tasks.append(('t_sequential', dict(n=n)))
+	# call HISTORIES: state carried from one call to the next (same thread / reused executor), incl. calls that fail mid-file
+	for mode in ('sequential', 'reused-thread-executor-1', 'reused-thread-executor-2', 'reused-process-executor-1', 'threads', 'processes'):
+		tasks.append(('t_histories', dict(mode=mode, depth=2 if tier == 'quick' else 3)))
 	# worker BODIES interleaved at Python-line granularity (state shared between workers would show here)
 	for pair in range(3):
 		tasks.append(('t_bodies', dict(pair=pair, bound=2 if (tier != 'quick' and pair == 0) else 1)))
@@ -395,6 +399,97 @@ def t_sequential(n):
 	return sh
 
 
+def late_fault_file(d, kind, name):
+	"""A file that fails only AFTER many records have been parsed (so k-mers of its first part have already been accumulated)."""
+	from gambit.seq import SequenceFile
+	import random
+	rnd = random.Random(12345)
+	recs = []
+	for i in range(1500):
+		km = ''.join(rnd.choice('ACGT') for _ in range(13))
+		recs.append(f'>r{i}\nGG{"ATGAC"}{km}CC\n')
+	text = ''.join(recs).encode('ascii')
+	p = os.path.join(d, name)
+	if kind == 'late-bad-byte':
+		with open(p, 'wb') as f:
+			f.write(text + b'>bad\nATGAC\xff\xfeAAAA\n')
+		return SequenceFile(p, 'fasta', None)
+	if kind == 'late-truncated-gzip':
+		with open(p, 'wb') as f:
+			f.write(gzip.compress(text, mtime=0)[:-2000])
+		return SequenceFile(p, 'fasta', 'gzip')
+	raise AssertionError(kind)
+
+
+def t_histories(mode, depth):
+	"""Every sequence (to the depth bound) of calls {valid A, valid B, faulty-missing, faulty-late-bad-byte, faulty-late-truncated-gzip} in ONE
+	process, sharing whatever the mode shares between calls (the calling thread; a caller-supplied executor that is reused; nothing for per-call
+	pools): every valid call must return the per-file signatures, every faulty call must raise - whatever happened in earlier calls."""
+	import gambit.sigs.calc as calc
+	from gambit.sigs.calc import calc_file_signature, calc_file_signatures
+	from gambit.sigs.base import SignatureList
+	sh = Shard()
+	ks_list = [fixtures.kspec(11, 'ATGAC'), fixtures.kspec(12, 'ATGAC')]      # dense accumulator / set accumulator
+	with fixtures.workdir('c13h') as d:
+		filesA = make_files(d, 3)
+		filesB = list(reversed(make_files(os.path.join(d, 'b'), 4)))[:3]
+		faulty = {
+			'F-missing': make_files(os.path.join(d, 'f1'), 3, 1, 'missing'),
+			'F-late-bad-byte': [filesA[0], late_fault_file(d, 'late-bad-byte', 'late.fa'), filesA[1]],
+			'F-late-truncated-gzip': [late_fault_file(d, 'late-truncated-gzip', 'late.fa.gz'), filesA[2]],
+		}
+		events = ['A', 'B'] + list(faulty)
+		states = set()
+		for ks in ks_list:
+			expA = [calc_file_signature(ks, f) for f in filesA]
+			expB = [calc_file_signature(ks, f) for f in filesB]
+			for hist in itertools.product(events, repeat=depth):
+				if not any(e in ('A', 'B') for e in hist[1:]):
+					continue      # a history is only informative if a valid call follows something
+				ex = None
+				if mode.startswith('reused-thread-executor'):
+					ex = ThreadPoolExecutor(max_workers=int(mode[-1]))
+				elif mode.startswith('reused-process-executor'):
+					ex = ProcessPoolExecutor(max_workers=1)
+				kw = dict(executor=ex) if ex is not None else dict(concurrency=None if mode == 'sequential' else mode)
+				try:
+					for step, ev in enumerate(hist):
+						files = filesA if ev == 'A' else filesB if ev == 'B' else faulty[ev]
+						sh.evals += 1
+						sh.transitions += 1
+						sh.traces += 1
+						states.add((repr(ks), hist[:step + 1]))
+						case = dict(mode='history:' + mode, n=len(files), order=[], workers=0, pre_completed=0, fault=None, faultkind=None, k=ks.k, history=list(hist[:step + 1]))
+						try:
+							res = calc_file_signatures(ks, files, **kw)
+							err = None
+						except Exception as e:
+							res, err = None, e
+						if ev in faulty:
+							if err is None:
+								sh.violation('fault-swallowed', case, 'the call raises', 'returned')
+								break
+							sh.count('history_faults_raised')
+							continue
+						exp = expA if ev == 'A' else expB
+						if err is not None:
+							sh.violation('unexpected-exception', case, 'result', repr(err))
+							break
+						if not (isinstance(res, SignatureList) and len(res) == len(exp) and all(np.array_equal(a, b) and a.dtype == b.dtype for a, b in zip(res, exp))):
+							sh.violation('result-depends-on-earlier-calls', case, [e.tolist()[:5] for e in exp], [np.asarray(r).tolist()[:5] for r in (res if res is not None else [])])
+							break
+						if step:
+							sh.nontrivial += 1
+							if any(e in faulty for e in hist[:step]):
+								sh.count('valid_calls_after_a_failed_call')
+				finally:
+					if ex is not None:
+						ex.shutdown(wait=True)
+		sh.states = len(states)
+	sh.sample(dict(family='histories', mode=mode, depth=depth, events=events, last_history=list(hist)))
+	return sh
+
+
 def t_bodies(pair, bound):
 	"""Two threads each run the real calc_file_signature on its own file; every interleaving of their gambit source lines with at most
 	`bound` preemptions is executed (sys.settrace baton); both results must equal the sequential ones in every interleaving."""
@@ -406,7 +501,7 @@ def t_bodies(pair, bound):
 	ks_list = [fixtures.kspec(4, 'AT'), fixtures.kspec(11, 'ATGAC'), fixtures.kspec(12, 'AT')]      # dense, dense (k=11), set accumulator
 	ks = ks_list[pair]
 	with fixtures.workdir('c13b') as d:
-		seqs = [['GGATCCGTAATACGT', 'ATGACAAAAAAAAAAAGGATTTTTTTTTTTTTTT'], ['CCATGGGGATGACCCCCCCCCCCGGATAAAAAAAAAAAAAAC']]
+		seqs = [['GGATGACAAAAAAAAAAAGGATCCCCCCCCCCCCC'], ['CCATGACCCCCCCCCCCGGATAAAAAAAAAAAAAC']]
 		files = []
 		for i, contigs in enumerate(seqs):
 			p = os.path.join(d, f'b{i}.fa')
@@ -446,7 +541,7 @@ def violation_key(v):
 
 def finalize(agg, tier):
 	for c in ('orders_differing_from_submission_order', 'last_submitted_finishes_first', 'runs_with_pre_completed_futures', 'faults_raised',
-	          'fault_completes_first', 'fault_completes_last', 'body_interleavings'):
+	          'fault_completes_first', 'fault_completes_last', 'body_interleavings', 'valid_calls_after_a_failed_call'):
 		agg.require(c, 10)
 
 
@@ -454,6 +549,9 @@ def replay(case, kind=None):
 	from gambit.sigs.calc import calc_file_signature
 	sh = Shard()
 	ks = fixtures.kspec(11, 'ATGAC')
+	if case['mode'].startswith('history:'):
+		vs = t_histories(case['mode'].split(':', 1)[1], len(case['history'])).violations
+		return [v for v in vs if v['case'].get('history') == case['history'] and v['case'].get('k') == case.get('k')][:1]
 	if case['mode'] == 'bodies':
 		return [v for v in t_bodies(case['pair'], 2).violations if v['case'].get('schedule') == case['schedule']][:1] or t_bodies(case['pair'], 2).violations[:1] and []
 	if case['mode'] == 'sequential' or case['mode'] not in ('threads', 'processes', 'executor'):
